@@ -1,53 +1,64 @@
 (* C01/C03/C04 — concrete schedules on the model (each one replayed on the real stack by the
-   corpus of the corresponding check): the defects recorded as known findings, and non-trivial
-   positive examples.  Everything here is closed computation (vm_compute). *)
+   corpus of the corresponding check): the schedules that exposed the three defects repaired by
+   91937ff / 66b3297 / 0faf897, now with the repaired outcome, and non-trivial positive examples.
+   Everything here is closed computation (vm_compute). *)
 From DustDDS Require Import Base.Machine Proto.RelModel.
 Open Scope Z_scope.
 
-(* --- GAP skip: KEEP_LAST(1), two instances: the writer holds {1,3}; a late reliable
-   TRANSIENT_LOCAL reader loses DATA(1) but gets GAP(2): highest_received jumps to 2, sample 1
-   is never requested again; the writer considers everything acknowledged and
-   wait_for_historical_data completes *)
+(* --- former finding C01-gap-skip: KEEP_LAST(1), two instances: the writer holds {1,3}; a late reliable
+   TRANSIENT_LOCAL reader loses DATA(1) but gets GAP(2).  The GAP is not contiguous with what the reader
+   has accounted for (available_changes_max = 0), so it is ignored; the HEARTBEAT makes the reader request
+   1..3, the writer answers DATA(1), GAP(2), DATA(3): one healing round delivers everything, and only then
+   do wait_for_historical_data and wait_for_acknowledgments complete *)
 Definition cf_gap : cfg := mkCfg 1344 true true 1.
 Definition sched_gap : list action :=
-  [AWrite 1 24 11; AWrite 2 24 22; AWrite 2 24 33; AMatch true true; AWfh; ADrop 0] ++ heal 3.
+  [AWrite 1 24 11; AWrite 2 24 22; AWrite 2 24 33; AMatch true true; AWfh; AWfa; ADrop 0].
 
-Lemma gap_skip_witness :
-  let s := run cf_gap init sched_gap in
-  s_changes s = [mkCh 1 1 24 11; mkCh 3 2 24 33] /\      (* still held *)
-  presented s = [mkCh 3 2 24 33] /\                      (* sample 1 never presented *)
-  s_net s = [] /\                                        (* nothing in flight after three healing rounds *)
-  is_acked (s_rp s) (s_last s) = true /\                 (* wait_for_acknowledgments succeeds *)
-  snd (step cf_gap s AWfhPoll) = OPoll [0].              (* wait_for_historical_data completed *)
+Lemma gap_skip_repaired :
+  let s0 := run cf_gap init sched_gap in
+  let s := run cf_gap s0 (heal 1) in
+  s_changes s0 = [mkCh 1 1 24 11; mkCh 3 2 24 33] /\     (* held *)
+  presented s0 = [] /\ ackd s0 = false /\                (* DATA(1) lost, GAP(2) and DATA(3) still queued *)
+  snd (step cf_gap s0 AWfhPoll) = OPoll [1] /\ snd (step cf_gap s0 AWfaPoll) = OPoll [1] /\
+  presented s = [mkCh 1 1 24 11; mkCh 3 2 24 33] /\      (* everything held has been presented, in order *)
+  s_net s = [] /\ ackd s = true /\
+  snd (step cf_gap s AWfhPoll) = OPoll [0] /\ snd (step cf_gap s AWfaPoll) = OPoll [0].
 Proof. vm_compute. repeat split; reflexivity. Qed.
 
-(* --- parked callers are forgotten: the matched reliable reader is deleted while a sample is
-   unacknowledged; the RTPS reader proxy is deleted with it (so a FRESH wait_for_acknowledgments call
-   succeeds at once), but the wait list is only re-evaluated when an ACKNACK is accepted: the caller
-   parked earlier is never answered *)
+(* the GAP alone, delivered before anything else, does not move the reader *)
+Lemma gap_not_contiguous_ignored :
+  let s := run cf_gap init [AWrite 1 24 11; AWrite 2 24 22; AWrite 2 24 33; AMatch true true; ADrop 0; ADeliver 0] in
+  presented s = [] /\ (match s_rd s with Some r => match rd_wp r with Some w => avail_max w | None => -1 end | None => -1 end) = 0.
+Proof. vm_compute. split; reflexivity. Qed.
+
+(* --- former finding C03-stale-waiter: the matched reliable reader (or its participant) is deleted while a
+   sample is unacknowledged and a caller is parked in wait_for_acknowledgments: the wait list is
+   re-evaluated when the reader proxy is removed, the caller is answered at once *)
 Definition cf_plain : cfg := mkCfg 1344 true false 0.
 Definition sched_stale (del : action) : list action :=
-  [AMatch true false; AWrite 1 24 11; ADrop 0; AWfa; del] ++ heal 3.
+  [AMatch true false; AWrite 1 24 11; ADrop 0; AWfa; del].
 
-Lemma stale_waiter_witness_reader :
+Lemma stale_waiter_repaired_reader :
+  let s0 := run cf_plain init [AMatch true false; AWrite 1 24 11; ADrop 0; AWfa] in
   let s := run cf_plain init (sched_stale ADelReader) in
-  s_rp s = None /\ s_dcps s = false /\ s_net s = [] /\
-  snd (step cf_plain s AWfaPoll) = OPoll [1] /\ snd (step cf_plain s AWfa) = OCode 0.
+  npend s0 = 1%nat /\ s_rp s = None /\ s_dcps s = false /\ npend s = 0%nat /\
+  snd (step cf_plain s AWfaPoll) = OPoll [0] /\ snd (step cf_plain s AWfa) = OCode 0.
 Proof. vm_compute. repeat split; reflexivity. Qed.
 
-Lemma stale_waiter_witness_participant :
+Lemma stale_waiter_repaired_participant :
+  let s0 := run cf_plain init [AMatch true false; AWrite 1 24 11; ADrop 0; AWfa] in
   let s := run cf_plain init (sched_stale ADelPart) in
-  s_rp s = None /\ s_dcps s = false /\ s_net s = [] /\
-  snd (step cf_plain s AWfaPoll) = OPoll [1] /\ snd (step cf_plain s AWfa) = OCode 0.
+  npend s0 = 1%nat /\ s_rp s = None /\ s_dcps s = false /\ npend s = 0%nat /\
+  snd (step cf_plain s AWfaPoll) = OPoll [0] /\ snd (step cf_plain s AWfa) = OCode 0.
 Proof. vm_compute. repeat split; reflexivity. Qed.
 
-(* --- a BEST_EFFORT VOLATILE reader that matches late is sent (and presents) the retained history:
-   the best-effort path of the writer does not look at first_relevant_sample_seq_num *)
-Lemma volatile_best_effort_witness :
+(* --- former finding C04-volatile-besteffort-history: a BEST_EFFORT VOLATILE reader that matches late is
+   not sent the retained history any more (GAPs instead), and receives what is written afterwards *)
+Lemma volatile_best_effort_repaired :
   let before := [AWrite 1 24 11; AWrite 1 24 22] in
-  let s := run cf_plain init (before ++ [AMatch false false; APump]) in
-  presented s = s_log (run cf_plain init before) /\ presented s = [mkCh 1 1 24 11; mkCh 2 1 24 22].
-Proof. vm_compute. split; reflexivity. Qed.
+  let s := run cf_plain init (before ++ [AMatch false false; APump; AWrite 1 24 33; APump]) in
+  s_changes s = [mkCh 1 1 24 11; mkCh 2 1 24 22; mkCh 3 1 24 33] /\ presented s = [mkCh 3 1 24 33] /\ s_net s = [].
+Proof. vm_compute. repeat split; reflexivity. Qed.
 
 (* --- positive examples (non-vacuity of the liveness statements) *)
 (* DATA(1) lost, DATA(2) overtaken by DATA(3), DATA(3) duplicated: one healing round repairs everything,
@@ -83,66 +94,3 @@ Lemma heal_example_history :
   s_changes s = [mkCh 2 1 24 22; mkCh 3 1 24 33] /\ presented s = s_changes s /\
   snd (step (mkCfg 1344 true true 2) s AWfhPoll) = OPoll [0].
 Proof. vm_compute. repeat split; reflexivity. Qed.
-
-(* --- the unrestricted statements are false on the faithful model *)
-(* "every sample the writer still holds (and that is relevant for the reader) is eventually presented" *)
-Definition reliable_liveness_full : Prop :=
-  forall cf sched k, (rounds_needed sched <= k)%nat -> delivered (run cf init (sched ++ heal k)).
-
-Lemma reliable_liveness_full_refuted : ~ reliable_liveness_full.
-Proof.
-  intros H.
-  specialize (H cf_gap [AWrite 1 24 11; AWrite 2 24 22; AWrite 2 24 33; AMatch true true; ADrop 0] 8%nat).
-  assert (Hk : (rounds_needed [AWrite 1 24 11; AWrite 2 24 22; AWrite 2 24 33; AMatch true true; ADrop 0] <= 8)%nat)
-    by (vm_compute; lia).
-  specialize (H Hk). unfold delivered in H.
-  set (s := run cf_gap init ([AWrite 1 24 11; AWrite 2 24 22; AWrite 2 24 33; AMatch true true; ADrop 0] ++ heal 8)) in *.
-  assert (E : exists p r w, s_rp s = Some p /\ rp_rel p = true /\ rp_fr p = 0 /\ s_rd s = Some r /\ rd_wp r = Some w /\
-                 rd_pres r = [mkCh 3 2 24 33] /\ In (mkCh 1 1 24 11) (s_changes s)).
-  { vm_compute. do 3 eexists. repeat split; try reflexivity. left. reflexivity. }
-  destruct E as (p & r & w & E1 & E2 & E3 & E4 & E5 & E6 & E7).
-  specialize (H p r w E1 E2 E4 E5 (mkCh 1 1 24 11) E7). rewrite E3, E6 in H.
-  destruct H as [H|[]]; [cbn; lia|discriminate].
-Qed.
-
-(* "wait_for_acknowledgments succeeds only if every matched reliable reader has every held relevant change" *)
-Definition wfa_sound_full : Prop :=
-  forall cf sched, let s := run cf init sched in ackd s = true -> delivered s.
-
-Lemma wfa_sound_full_refuted : ~ wfa_sound_full.
-Proof.
-  intros H. specialize (H cf_gap sched_gap). lazy zeta in H.
-  set (s := run cf_gap init sched_gap) in *.
-  assert (Ha : ackd s = true) by (vm_compute; reflexivity). specialize (H Ha). unfold delivered in H.
-  assert (E : exists p r w, s_rp s = Some p /\ rp_rel p = true /\ rp_fr p = 0 /\ s_rd s = Some r /\ rd_wp r = Some w /\
-                 rd_pres r = [mkCh 3 2 24 33] /\ In (mkCh 1 1 24 11) (s_changes s)).
-  { vm_compute. do 3 eexists. repeat split; try reflexivity. left. reflexivity. }
-  destruct E as (p & r & w & E1 & E2 & E3 & E4 & E5 & E6 & E7).
-  specialize (H p r w E1 E2 E4 E5 (mkCh 1 1 24 11) E7). rewrite E3, E6 in H.
-  destruct H as [H|[]]; [cbn; lia|discriminate].
-Qed.
-
-(* "after healing every parked wait_for_acknowledgments caller has been answered" *)
-Definition wfa_completes_full : Prop :=
-  forall cf sched k, (rounds_needed sched <= k)%nat -> npend (run cf init (sched ++ heal k)) = 0%nat.
-
-Lemma wfa_completes_full_refuted : ~ wfa_completes_full.
-Proof.
-  intros H. specialize (H cf_plain [AMatch true false; AWrite 1 24 11; ADrop 0; AWfa; ADelReader] 4%nat).
-  assert (Hk : (rounds_needed [AMatch true false; AWrite 1 24 11; ADrop 0; AWfa; ADelReader] <= 4)%nat) by (vm_compute; lia).
-  specialize (H Hk). vm_compute in H. discriminate.
-Qed.
-
-(* "a VOLATILE reader never presents a sample written before it was matched" (any reliability) *)
-Definition volatile_no_history_full : Prop :=
-  forall cf before rel after,
-    let s1 := run cf init before in
-    s_rd s1 = None -> s_rp s1 = None ->
-    let s := run cf init (before ++ AMatch rel false :: after) in
-    forall c, In c (s_log s1) -> ~ In c (presented s).
-
-Lemma volatile_no_history_full_refuted : ~ volatile_no_history_full.
-Proof.
-  intros H. specialize (H cf_plain [AWrite 1 24 11; AWrite 1 24 22] false [APump] eq_refl eq_refl (mkCh 1 1 24 11)).
-  apply H; vm_compute; left; reflexivity.
-Qed.
